@@ -208,7 +208,29 @@ fn unknown_case(host: Host, src: &mut Src, obs: &mut Obs) -> CaseResult {
         let (kk, vv) = if src.chance(1, 5) {
             realistic = true;
             let (kk, vv) = mutate::realistic_unknown(src);
-            if host.known_keys().contains(&kk.as_str().unwrap_or("")) || used.iter().any(|u| Some(&u[..]) == kk.as_text()) {
+            // identifiers registered for other extensions are "unknown" only as long as the crate
+            // has not adopted them: a key that the decoder treats type-sensitively (some value type
+            // rejected or the result changed) is a known member of this host by now, and the
+            // same value is then sent under a made-up key instead
+            let adopted = {
+                let mut adopted = false;
+                for t in 0..7 {
+                    let mut v = model.clone();
+                    if let Some(Value::Map(m)) = mutate::get_mut(&mut v, &hp) {
+                        m.push((kk.clone(), mutate::palette(t)));
+                    }
+                    let mut msg = vec![cmd];
+                    msg.extend_from_slice(&refcbor::encode(&v));
+                    if Request::deserialize(&msg) != Request::deserialize(&base) {
+                        adopted = true;
+                    }
+                }
+                adopted
+            };
+            if adopted {
+                obs.label("realistic-extra:key-treated-as-known");
+            }
+            if adopted || host.known_keys().contains(&kk.as_str().unwrap_or("")) || used.iter().any(|u| Some(&u[..]) == kk.as_text()) {
                 (unknown_key(host, src, &used), vv)
             } else {
                 (kk, vv)
